@@ -69,18 +69,19 @@ def firstFail (c : Cfg) (s : St) (d : Dial) (ds : List Dial) : St :=
 
 /-- the first attempt fails (no socket yet): dial, error report, no teardown because reconnect is on -/
 theorem first_fail (c : Cfg) (hq : Quiet c) (hr : c.reconnect ≠ 0) (s : St) (d : Dial) (ds : List Dial)
-    (hs : s.sock = none) (hp : s.ping = none) (hd : s.dials = d :: ds) (hf : isFail d = true) :
+    (hs : s.sock = none) (hp : s.ping = none) (hd : s.dials = d :: ds) (hf : isFail d = true)
+    (hk : s.keepRunning = true) :
     setSock c s false = (firstFail c s d ds, .ok ()) := by
   unfold firstFail
   cases d with
   | established evs => simp [isFail] at hf
   | refused =>
-    simp only [setSock, release, afterConnect, connect, hd, St.emit, Bool.false_eq_true, ↓reduceIte, handleDisconnect,
+    simp only [setSock, release, afterConnect, connect, hd, St.emit, Bool.false_eq_true, ↓reduceIte, handleDisconnect_running, handleDisconnectBody, hk,
       gen_dcErr, gen_dcStops, stopPing, hp, Bool.not_false, callback_quiet c hq, afterReport, reduceCtorEq, hr, ne_eq,
       not_false_eq_true, dialExn]
     simp [List.append_assoc]
   | rejected st =>
-    simp only [setSock, release, afterConnect, connect, hd, St.emit, Bool.false_eq_true, ↓reduceIte, handleDisconnect,
+    simp only [setSock, release, afterConnect, connect, hd, St.emit, Bool.false_eq_true, ↓reduceIte, handleDisconnect_running, handleDisconnectBody, hk,
       gen_dcErr, gen_dcStops, stopPing, hp, Bool.not_false, callback_quiet c hq, afterReport, reduceCtorEq, hr, ne_eq,
       not_false_eq_true, dialExn]
     simp [List.append_assoc]
@@ -88,7 +89,7 @@ theorem first_fail (c : Cfg) (hq : Quiet c) (hr : c.reconnect ≠ 0) (s : St) (d
 /-- a later attempt fails: the previous (already released) socket is dropped, dial, nothing is reported -/
 theorem later_fail (c : Cfg) (hr : c.reconnect ≠ 0) (s : St) (w : WSock) (d : Dial) (ds : List Dial)
     (hs : s.sock = some w) (hw : w.isOpen = false) (hp : s.ping = none) (hd : s.dials = d :: ds)
-    (hf : isFail d = true) :
+    (hf : isFail d = true) (hk : s.keepRunning = true) :
     setSock c s true =
       ({ s with hasErrored := true, lastPing := 0, lastPong := 0,
                 sock := some { idx := s.nextIdx, connected := false, isOpen := false, dead := false },
@@ -98,12 +99,12 @@ theorem later_fail (c : Cfg) (hr : c.reconnect ≠ 0) (s : St) (w : WSock) (d : 
   | established evs => simp [isFail] at hf
   | refused =>
     simp only [setSock, release, afterConnect, hs, closeTransport, hw, Bool.false_eq_true, ↓reduceIte, connect, hd,
-      St.emit, handleDisconnect, gen_dcErr, gen_dcStops, stopPing, hp, Bool.not_true, afterReport, reduceCtorEq, hr,
+      St.emit, handleDisconnect_running, handleDisconnectBody, hk, gen_dcErr, gen_dcStops, stopPing, hp, Bool.not_true, afterReport, reduceCtorEq, hr,
       ne_eq, not_false_eq_true]
     simp
   | rejected st =>
     simp only [setSock, release, afterConnect, hs, closeTransport, hw, Bool.false_eq_true, ↓reduceIte, connect, hd,
-      St.emit, handleDisconnect, gen_dcErr, gen_dcStops, stopPing, hp, Bool.not_true, afterReport, reduceCtorEq, hr,
+      St.emit, handleDisconnect_running, handleDisconnectBody, hk, gen_dcErr, gen_dcStops, stopPing, hp, Bool.not_true, afterReport, reduceCtorEq, hr,
       ne_eq, not_false_eq_true]
     simp
 
@@ -203,7 +204,7 @@ theorem rl_fail (c : Cfg) (hr : c.reconnect ≠ 0) (n : Nat) (s : St) (d : Dial)
   obtain ⟨w, hs, hw⟩ := h.sk
   rw [rl_step c n s h.kr h.pg hz]
   rw [later_fail c hr (sleepStep c.reconnect s) w d ds (by simpa [sleepStep] using hs) hw
-    (by simpa [sleepStep] using h.pg) (by simpa [sleepStep] using hd) hf]
+    (by simpa [sleepStep] using h.pg) (by simpa [sleepStep] using hd) hf (by simpa [sleepStep] using h.kr)]
   simp only [rlNext, sleepStep, failStep, hd, List.tail_cons, List.append_assoc, List.cons_append, List.nil_append]
 
 end WS.Lemmas.App
@@ -352,7 +353,7 @@ theorem reconnect_run (c : Cfg) (hq : Quiet c) (hacc : argsAccepted c.iv c.to = 
   simp only [hacc, hs0, Bool.not_true, Bool.false_eq_true, ↓reduceIte, Option.isSome_none]
   unfold runBody firstStage
   have h1 := first_fail c hq hr (prologue s0) d (ds ++ [.established (legal ++ [te])]) (by simpa [prologue] using hs0)
-    (by simpa [prologue] using hp0) (by simpa [prologue] using hd) (hfails d (by simp))
+    (by simpa [prologue] using hp0) (by simpa [prologue] using hd) (hfails d (by simp)) (by simp [prologue])
   rw [h1]
   simp only [hr, ne_eq, not_false_eq_true, ↓reduceIte]
   have hret : Retrying (firstFail c (prologue s0) d (ds ++ [.established (legal ++ [te])])) :=
